@@ -17,7 +17,7 @@ RULE = ('Grid: scope kind (4) x pattern kind (5) x alias assignment {none, A, B}
         'in its own domain, nested re-binding, legal sibling re-use). Every case is realised three ways: text through '
         'the parser, construction through the public API, and but() from a valid neighbour. Non-trivial = >= 1 alias '
         'and >= 1 reference; distinct = (scope, pattern, alias map, reference map, placement).')
-RULE_ADDED = ' Since the seeding rounds: references also inside indices, index chains, indexed domains, range bounds, set elements and function arguments; realisation but-deep (predicates put in through event.but, copies travelling up through but()); own variable in its domain behind another variable.'
+RULE_ADDED = ' Since the seeding rounds: references also inside indices, index chains, indexed domains, range bounds, set elements and function arguments; realisation but-deep (predicates put in through event.but, copies travelling up through but()); own variable in its domain behind another variable; quantified variables with names of several characters.'
 ASSUMPTIONS = ['not judged: one alias on two alternatives of one disjunction, an alias bound by the terminator that a '
                'pattern event also binds, a name used both as alias and bound variable, a nested same-name quantifier '
                'inside a quantifier domain']
@@ -192,7 +192,35 @@ def run(ctx):
             return hp.but(scope=scope, pattern=pattern)
         return [hplapi.outcome(derive)]
 
+    LONG = {'i': 'idx', 'j': 'elem', 'k': 'k1'}
+
+    def long_names(p):
+        """the same property with its quantified variables spelled with several characters (consistently, so bound
+        and free occurrences stay what they were)"""
+        def f(x):
+            if x[0] == 'var' and x[1] in LONG:
+                return ('var', LONG[x[1]])
+            if x[0] == 'quant' and x[2] in LONG:
+                return x[:2] + (LONG[x[2]],) + x[3:]
+            return x
+
+        def ev(e):
+            if e is None:
+                return None
+            if e[0] == 'disj':
+                return ('disj', tuple(ev(k) for k in e[1]))
+            return ('ev', e[1], e[2], A.subst(e[3], f) if e[3] is not None else None)
+        _, meta, scope, pat = p
+        return ('prop', meta, scope[:2] + tuple(ev(e) for e in scope[2:]),
+                pat[:2] + (ev(pat[2]), ev(pat[3])) + pat[4:])
+
     def judge(p, sig, nontrivial, tags=()):
+        if rng.random() < 0.35:
+            q = long_names(p)
+            if q != p:
+                p = q
+                tags = tuple(tags) + ('shape:long-variable-names',)
+                ctx.count('long_variable_name_cases')
         v, reason = SCO.verdict(p)
         feats = {'api:property', 'shape:' + p[2][1], 'shape:' + p[3][1]} | set(tags)
         ctx.begin_case(feats)
